@@ -174,9 +174,15 @@ def Fields.allKept (keep : List Bytes) : Fields → Bool
   | .nil => true
   | .cons n _ r => keep.contains n && Fields.allKept keep r
 
+/-- the `version` key, where present, is a string field (the translator checks it for every registered version) -/
+def versionIsStr : Fields → Bool
+  | .nil => true
+  | .cons n t fs => (if n = kVersion then (match t with | .str => true | _ => false) else true) && versionIsStr fs
+
 mutual
-/-- schemas on which decoding is the exact inverse of encoding: keys of every struct pairwise distinct, no
-hand-written decoder that drops a field, no version-dispatched wrapper (that case is `dec_enc_union`). -/
+/-- schemas on which decoding is the exact inverse of encoding: keys of every struct pairwise distinct (and short
+enough to be encoded), no hand-written decoder that drops a field, and every entity wrapper has pairwise distinct
+version strings and struct alternatives whose `version` key is a string. -/
 def good : Ty → Bool
   | .arr e => good e
   | .farr _ e => good e
@@ -184,12 +190,40 @@ def good : Ty → Bool
   | .ptr e => good e
   | .struct fs => decide (Fields.names fs).Nodup && goodFields fs
   | .pstruct keep fs => Fields.allKept keep fs && decide (Fields.names fs).Nodup && goodFields fs
-  | .union _ => false
+  | .union alts => decide (Fields.names alts).Nodup && goodAlts alts
   | _ => true
 def goodFields : Fields → Bool
   | .nil => true
   | .cons n t r => decide (n.length < 4294967296) && good t && goodFields r
+def goodAlts : Fields → Bool
+  | .nil => true
+  | .cons _ t r => (match t with | .struct fs => versionIsStr fs | _ => false) && good t && goodAlts r
 end
+
+theorem goodAlts_at : (alts : Fields) → (i : Nat) → (t : Ty) → goodAlts alts = true → alts.tyAt i = some t →
+    ∃ fs, t = .struct fs ∧ versionIsStr fs = true ∧ good t = true
+  | .nil, _, _, _, h => by simp [Fields.tyAt] at h
+  | .cons n t0 r, 0, t, hg, h => by
+    simp only [Fields.tyAt, Option.some.injEq] at h
+    subst h
+    simp only [goodAlts, Bool.and_eq_true] at hg
+    cases t0 <;> simp at hg
+    rename_i fs
+    exact ⟨fs, rfl, hg.1.1, hg.1.2⟩
+  | .cons n t0 r, j + 1, t, hg, h => by
+    simp only [Fields.tyAt] at h
+    simp only [goodAlts, Bool.and_eq_true] at hg
+    exact goodAlts_at r j t hg.2 h
+
+theorem Fields.get?_of_at : (fs : Fields) → (i : Nat) → (n : Bytes) → (t : Ty) → fs.nameAt i = some n → fs.tyAt i = some t →
+    fs.get? i = some (n, t)
+  | .nil, _, _, _, h, _ => by simp [Fields.nameAt] at h
+  | .cons n0 t0 r, 0, n, t, h1, h2 => by
+    simp only [Fields.nameAt, Fields.tyAt, Option.some.injEq] at h1 h2
+    simp [Fields.get?, h1, h2]
+  | .cons n0 t0 r, j + 1, n, t, h1, h2 => by
+    simp only [Fields.nameAt, Fields.tyAt] at h1 h2
+    simp [Fields.get?, Fields.get?_of_at r j n t h1 h2]
 
 theorem Fields.get?_mem_names : (fs : Fields) → (i : Nat) → (n : Bytes) → (t : Ty) → fs.get? i = some (n, t) →
     n ∈ fs.names
@@ -386,7 +420,454 @@ theorem enc_head (v : Val) (t : Ty) (h : wt t v = true) (hg : good t = true) (hn
     rename_i e
     simp only [enc]
     exact enc_head v' e h.1 (by simpa [good] using hg) h.2
-  | alt i v' => cases t <;> simp [wt] at h; simp [good] at hg
+  | alt i v' =>
+    cases t <;> simp [wt] at h
+    rename_i alts
+    cases hnm : alts.nameAt i with
+    | none => simp [hnm] at h
+    | some n =>
+      cases hty : alts.tyAt i with
+      | none => simp [hnm, hty] at h
+      | some t' =>
+        simp only [hnm, hty, Bool.and_eq_true] at h
+        obtain ⟨_, hvo⟩ := h
+        cases t' <;> simp [versionOk] at hvo
+        cases v' <;> simp [versionOk] at hvo
+        simp only [enc, hty]
+        exact headOk_append _ _ (encMapHdr_head _)
+
+
+/-! ### `msgp.Skip` steps exactly over an encoded value -/
+
+mutual
+/-- number of MessagePack objects in the encoding of a value -/
+def objs : Ty → Val → Nat
+  | .arr e, .arr vs => 1 + objsList e vs
+  | .farr _ e, .arr vs => 1 + objsList e vs
+  | .map e, .map kvs => 1 + objsKVs e kvs
+  | .ptr e, .some v => objs e v
+  | .struct fs, .arr vs => 1 + objsFields fs vs
+  | .pstruct _ fs, .arr vs => 1 + objsFields fs vs
+  | .union alts, .alt i v =>
+    match alts.tyAt i with
+    | some t => objs t v
+    | none => 0
+  | _, _ => 1
+termination_by structural _ v => v
+def objsList : Ty → Vals → Nat
+  | _, .nil => 0
+  | e, .cons v r => objs e v + objsList e r
+termination_by structural _ vs => vs
+def objsKVs : Ty → KVs → Nat
+  | _, .nil => 0
+  | e, .cons _ v r => 1 + objs e v + objsKVs e r
+termination_by structural _ kvs => kvs
+def objsFields : Fields → Vals → Nat
+  | .cons _ t rest, .cons v r => 1 + objs t v + objsFields rest r
+  | _, _ => 0
+termination_by structural _ vs => vs
+end
+
+theorem skipN_zero (f : Nat) (bs : Bytes) : skipN f 0 bs = some bs := by
+  cases f <;> rfl
+
+/-- one step over an object whose size and follow-up count `sizeOf1` reports -/
+theorem skipN_step (E body : Bytes) (more f p : Nat) (h : sizeOf1 (E ++ body) = some (E.length, more)) :
+    skipN (f + 1) (p + 1) (E ++ body) = skipN f (p + more) body := by
+  simp only [skipN, h, takeN_append]
+
+theorem sizeOf1_encUint (n : Nat) (h : n < 18446744073709551616) (r : Bytes) :
+    sizeOf1 (encUint n ++ r) = some ((encUint n).length, 0) := by
+  unfold encUint
+  split
+  · rename_i h1; simp [sizeOf1, h1]
+  · split
+    · simp [sizeOf1, takeN]
+    · split
+      · simp [sizeOf1, be_length]
+      · split
+        · simp [sizeOf1, be_length]
+        · simp [sizeOf1, be_length]
+
+theorem sizeOf1_encInt (i : Int) (r : Bytes) : sizeOf1 (encInt i ++ r) = some ((encInt i).length, 0) := by
+  unfold encInt
+  split
+  · split
+    · rename_i h1 h2
+      have : i.toNat ≤ 127 := by omega
+      simp [sizeOf1, this]
+    · split
+      · simp [sizeOf1, be_length]
+      · split
+        · simp [sizeOf1, be_length]
+        · simp [sizeOf1, be_length]
+  · split
+    · rename_i h1 h2
+      have a1 : ¬ twos 1 i ≤ 127 := by rw [twos1]; omega
+      have a2 : ¬ twos 1 i ≤ 143 := by rw [twos1]; omega
+      have a3 : ¬ twos 1 i ≤ 159 := by rw [twos1]; omega
+      have a4 : ¬ twos 1 i ≤ 191 := by rw [twos1]; omega
+      have a5 : 224 ≤ twos 1 i := by rw [twos1]; omega
+      simp [sizeOf1, a1, a2, a3, a4, a5]
+    · split
+      · simp [sizeOf1]
+      · split
+        · simp [sizeOf1, be_length]
+        · split
+          · simp [sizeOf1, be_length]
+          · simp [sizeOf1, be_length]
+
+theorem sizeOf1_encStr (s : Bytes) (h : s.length < 4294967296) (r : Bytes) :
+    sizeOf1 (encStr s ++ r) = some ((encStr s).length, 0) := by
+  unfold encStr encStrHdr
+  split
+  · rename_i h1
+    have a1 : ¬ 160 + s.length ≤ 127 := by omega
+    have a2 : ¬ 160 + s.length ≤ 143 := by omega
+    have a3 : ¬ 160 + s.length ≤ 159 := by omega
+    have a4 : 160 + s.length ≤ 191 := by omega
+    simp [sizeOf1, a1, a2, a3, a4]; omega
+  · split
+    · simp [sizeOf1, takeN, ofBe]; omega
+    · split
+      · rename_i h1 h2 h3
+        simp [sizeOf1, List.append_assoc, takeN_be, ofBe_be2 s.length (by omega), be_length]; omega
+      · simp [sizeOf1, List.append_assoc, takeN_be, ofBe_be4 s.length h, be_length]; omega
+
+theorem sizeOf1_encBin (s : Bytes) (h : s.length < 4294967296) (r : Bytes) :
+    sizeOf1 (encBinHdr s.length ++ s ++ r) = some ((encBinHdr s.length ++ s).length, 0) := by
+  unfold encBinHdr
+  split
+  · simp [sizeOf1, takeN, ofBe]; omega
+  · split
+    · rename_i h1 h2
+      simp [sizeOf1, List.append_assoc, takeN_be, ofBe_be2 s.length (by omega), be_length]; omega
+    · simp [sizeOf1, List.append_assoc, takeN_be, ofBe_be4 s.length h, be_length]; omega
+
+theorem sizeOf1_arrHdr (n : Nat) (h : n < 4294967296) (r : Bytes) :
+    sizeOf1 (encArrHdr n ++ r) = some ((encArrHdr n).length, n) := by
+  unfold encArrHdr
+  split
+  · rename_i h1
+    have a1 : ¬ 144 + n ≤ 127 := by omega
+    have a2 : ¬ 144 + n ≤ 143 := by omega
+    have a3 : 144 + n ≤ 159 := by omega
+    simp [sizeOf1, a1, a2, a3]
+  · split
+    · simp [sizeOf1, takeN_be, ofBe_be2 n (by omega), be_length]
+    · simp [sizeOf1, takeN_be, ofBe_be4 n h, be_length]
+
+theorem sizeOf1_mapHdr (n : Nat) (h : n < 4294967296) (r : Bytes) :
+    sizeOf1 (encMapHdr n ++ r) = some ((encMapHdr n).length, 2 * n) := by
+  unfold encMapHdr
+  split
+  · rename_i h1
+    have a1 : ¬ 128 + n ≤ 127 := by omega
+    have a2 : 128 + n ≤ 143 := by omega
+    simp [sizeOf1, a1, a2]
+  · split
+    · simp [sizeOf1, takeN_be, ofBe_be2 n (by omega), be_length]
+    · simp [sizeOf1, takeN_be, ofBe_be4 n h, be_length]
+
+
+theorem skipN_scalar (E rest : Bytes) (f p : Nat) (h : sizeOf1 (E ++ rest) = some (E.length, 0)) :
+    skipN (f + 1) (p + 1) (E ++ rest) = skipN f p rest := by
+  have := skipN_step E rest 0 f p h
+  simpa using this
+
+mutual
+theorem skip_enc (v : Val) (t : Ty) (f p : Nat) (rest : Bytes) (h : wt t v = true) :
+    skipN (f + objs t v) (p + 1) (enc t v ++ rest) = skipN f p rest := by
+  cases v with
+  | int i => cases t <;> simp [wt] at h; simp only [enc, objs]; exact skipN_scalar _ _ _ _ (sizeOf1_encInt i rest)
+  | uint n => cases t <;> simp [wt] at h; simp only [enc, objs]; exact skipN_scalar _ _ _ _ (sizeOf1_encUint n h rest)
+  | bool b =>
+    cases t <;> simp [wt] at h
+    simp only [enc, objs]
+    cases b <;> exact skipN_scalar _ _ _ _ (by simp [sizeOf1])
+  | str s => cases t <;> simp [wt] at h; simp only [enc, objs]; exact skipN_scalar _ _ _ _ (sizeOf1_encStr s h rest)
+  | bin s => cases t <;> simp [wt] at h; simp only [enc, objs]; exact skipN_scalar _ _ _ _ (sizeOf1_encBin s h rest)
+  | f64 b =>
+    cases t <;> simp [wt] at h
+    simp only [enc, objs]
+    exact skipN_scalar _ _ _ _ (by simp [sizeOf1, be_length])
+  | f32 b =>
+    cases t <;> simp [wt] at h
+    simp only [enc, objs]
+    exact skipN_scalar _ _ _ _ (by simp [sizeOf1, be_length])
+  | time s ns =>
+    cases t <;> simp [wt] at h
+    simp only [enc, objs]
+    exact skipN_scalar _ _ _ _ (by simp [sizeOf1, takeN, ofBe, be_length])
+  | arr vs =>
+    cases t <;> simp [wt] at h
+    · rename_i e
+      simp only [enc, objs, List.append_assoc]
+      rw [show f + (1 + objsList e vs) = (f + objsList e vs) + 1 by omega,
+        skipN_step _ _ vs.length _ _ (sizeOf1_arrHdr _ h.1 _)]
+      exact skip_encList vs e f p rest h.2
+    · rename_i n e
+      simp only [enc, objs, List.append_assoc]
+      rw [show f + (1 + objsList e vs) = (f + objsList e vs) + 1 by omega,
+        skipN_step _ _ n _ _ (sizeOf1_arrHdr _ h.1.2 _)]
+      rw [← h.1.1]
+      exact skip_encList vs e f p rest h.2
+    · rename_i fs
+      simp only [enc, objs, List.append_assoc]
+      rw [show f + (1 + objsFields fs vs) = (f + objsFields fs vs) + 1 by omega,
+        skipN_step _ _ (2 * fs.length) _ _ (sizeOf1_mapHdr _ h.1 _)]
+      exact skip_encFields vs fs f p rest h.2
+    · rename_i keep fs
+      simp only [enc, objs, List.append_assoc]
+      rw [show f + (1 + objsFields fs vs) = (f + objsFields fs vs) + 1 by omega,
+        skipN_step _ _ (2 * fs.length) _ _ (sizeOf1_mapHdr _ h.1 _)]
+      exact skip_encFields vs fs f p rest h.2
+  | map kvs =>
+    cases t <;> simp [wt] at h
+    rename_i e
+    simp only [enc, objs, List.append_assoc]
+    rw [show f + (1 + objsKVs e kvs) = (f + objsKVs e kvs) + 1 by omega,
+      skipN_step _ _ (2 * kvs.length) _ _ (sizeOf1_mapHdr _ h.1.1 _)]
+    exact skip_encKVs kvs e f p rest h.2
+  | null =>
+    cases t <;> simp [wt] at h
+    simp only [enc, objs]
+    exact skipN_scalar _ _ _ _ (by simp [sizeOf1])
+  | some v' =>
+    cases t <;> simp [wt] at h
+    rename_i e
+    simp only [enc, objs]
+    exact skip_enc v' e f p rest h.1
+  | alt i v' =>
+    cases t <;> simp [wt] at h
+    rename_i alts
+    cases hty : alts.tyAt i with
+    | none => cases hnm : alts.nameAt i <;> simp [hnm, hty] at h
+    | some t' =>
+      cases hnm : alts.nameAt i with
+      | none => simp [hnm, hty] at h
+      | some n =>
+        simp only [hnm, hty, Bool.and_eq_true] at h
+        simp only [enc, objs, hty]
+        exact skip_enc v' t' f p rest h.1
+termination_by sizeOf v
+
+theorem skip_encList (vs : Vals) (e : Ty) (f p : Nat) (rest : Bytes) (h : wtList e vs = true) :
+    skipN (f + objsList e vs) (p + vs.length) (encList e vs ++ rest) = skipN f p rest := by
+  cases vs with
+  | nil => simp [encList, objsList, Vals.length]
+  | cons v r =>
+    simp only [wtList, Bool.and_eq_true] at h
+    simp only [encList, objsList, Vals.length, List.append_assoc]
+    rw [show f + (objs e v + objsList e r) = (f + objsList e r) + objs e v by omega,
+      show p + (r.length + 1) = (p + r.length) + 1 by omega, skip_enc v e _ _ _ h.1]
+    exact skip_encList r e f p rest h.2
+termination_by sizeOf vs
+
+theorem skip_encKVs (kvs : KVs) (e : Ty) (f p : Nat) (rest : Bytes) (h : wtKVs e kvs = true) :
+    skipN (f + objsKVs e kvs) (p + 2 * kvs.length) (encKVs e kvs ++ rest) = skipN f p rest := by
+  cases kvs with
+  | nil => simp [encKVs, objsKVs, KVs.length]
+  | cons k v r =>
+    simp only [wtKVs, Bool.and_eq_true, decide_eq_true_eq] at h
+    simp only [encKVs, objsKVs, KVs.length, List.append_assoc]
+    rw [show f + (1 + objs e v + objsKVs e r) = (f + objsKVs e r + objs e v) + 1 by omega,
+      show p + 2 * (r.length + 1) = (p + 2 * r.length + 1) + 1 by omega,
+      skipN_scalar _ _ _ _ (sizeOf1_encStr k h.1.1 _), skip_enc v e _ _ _ h.1.2]
+    exact skip_encKVs r e f p rest h.2
+termination_by sizeOf kvs
+
+theorem skip_encFields (vs : Vals) (fs : Fields) (f p : Nat) (rest : Bytes) (h : wtFields fs vs = true) :
+    skipN (f + objsFields fs vs) (p + 2 * fs.length) (encFields fs vs ++ rest) = skipN f p rest := by
+  cases fs with
+  | nil =>
+    cases vs with
+    | nil => simp [encFields, objsFields, Fields.length]
+    | cons v r => simp [wtFields] at h
+  | cons n t fs' =>
+    cases vs with
+    | nil => simp [wtFields] at h
+    | cons v vs' =>
+      simp only [wtFields, Bool.and_eq_true, decide_eq_true_eq] at h
+      simp only [encFields, objsFields, Fields.length, List.append_assoc]
+      rw [show f + (1 + objs t v + objsFields fs' vs') = (f + objsFields fs' vs' + objs t v) + 1 by omega,
+        show p + 2 * (fs'.length + 1) = (p + 2 * fs'.length + 1) + 1 by omega,
+        skipN_scalar _ _ _ _ (sizeOf1_encStr n h.1.1 _), skip_enc v t _ _ _ h.1.2]
+      exact skip_encFields vs' fs' f p rest h.2
+termination_by sizeOf vs
+end
+
+
+/-! ### every object takes at least one byte, so the fuel of `skip` suffices -/
+
+theorem headOk_length (bs : Bytes) (h : HeadOk bs) : 1 ≤ bs.length := by
+  obtain ⟨b, tl, h1, _⟩ := h
+  simp [h1]
+
+theorem encStr_length_pos (s : Bytes) : 1 ≤ (encStr s).length := by
+  have := headOk_length _ (encStrHdr_head s.length)
+  simp only [encStr, List.length_append]; omega
+
+mutual
+theorem objs_le (v : Val) (t : Ty) (h : wt t v = true) : objs t v ≤ (enc t v).length := by
+  cases v with
+  | int i => cases t <;> simp [wt] at h; simp only [enc, objs]; exact headOk_length _ (encInt_head i)
+  | uint n => cases t <;> simp [wt] at h; simp only [enc, objs]; exact headOk_length _ (encUint_head n)
+  | bool b => cases t <;> simp [wt] at h; simp [enc, objs]
+  | str s => cases t <;> simp [wt] at h; simp only [enc, objs]; exact encStr_length_pos s
+  | bin s =>
+    cases t <;> simp [wt] at h
+    simp only [enc, objs, List.length_append]
+    have := headOk_length _ (encBinHdr_head s.length); omega
+  | f64 b => cases t <;> simp [wt] at h; simp [enc, objs]
+  | f32 b => cases t <;> simp [wt] at h; simp [enc, objs]
+  | time s ns => cases t <;> simp [wt] at h; simp [enc, objs]
+  | arr vs =>
+    cases t <;> simp [wt] at h
+    · rename_i e
+      simp only [enc, objs, List.length_append]
+      have := headOk_length _ (encArrHdr_head vs.length); have := objsList_le vs e h.2; omega
+    · rename_i n e
+      simp only [enc, objs, List.length_append]
+      have := headOk_length _ (encArrHdr_head n); have := objsList_le vs e h.2; omega
+    · rename_i fs
+      simp only [enc, objs, List.length_append]
+      have := headOk_length _ (encMapHdr_head fs.length); have := objsFields_le vs fs h.2; omega
+    · rename_i keep fs
+      simp only [enc, objs, List.length_append]
+      have := headOk_length _ (encMapHdr_head fs.length); have := objsFields_le vs fs h.2; omega
+  | map kvs =>
+    cases t <;> simp [wt] at h
+    rename_i e
+    simp only [enc, objs, List.length_append]
+    have := headOk_length _ (encMapHdr_head kvs.length); have := objsKVs_le kvs e h.2; omega
+  | null => cases t <;> simp [wt] at h; simp [enc, objs]
+  | some v' =>
+    cases t <;> simp [wt] at h
+    rename_i e
+    simp only [enc, objs]
+    exact objs_le v' e h.1
+  | alt i v' =>
+    cases t <;> simp [wt] at h
+    rename_i alts
+    cases hty : alts.tyAt i with
+    | none => cases hnm : alts.nameAt i <;> simp [hnm, hty] at h
+    | some t' =>
+      cases hnm : alts.nameAt i with
+      | none => simp [hnm, hty] at h
+      | some n =>
+        simp only [hnm, hty, Bool.and_eq_true] at h
+        simp only [enc, objs, hty]
+        exact objs_le v' t' h.1
+termination_by sizeOf v
+
+theorem objsList_le (vs : Vals) (e : Ty) (h : wtList e vs = true) : objsList e vs ≤ (encList e vs).length := by
+  cases vs with
+  | nil => simp [objsList]
+  | cons v r =>
+    simp only [wtList, Bool.and_eq_true] at h
+    simp only [encList, objsList, List.length_append]
+    have := objs_le v e h.1; have := objsList_le r e h.2; omega
+termination_by sizeOf vs
+
+theorem objsKVs_le (kvs : KVs) (e : Ty) (h : wtKVs e kvs = true) : objsKVs e kvs ≤ (encKVs e kvs).length := by
+  cases kvs with
+  | nil => simp [objsKVs]
+  | cons k v r =>
+    simp only [wtKVs, Bool.and_eq_true] at h
+    simp only [encKVs, objsKVs, List.length_append]
+    have := encStr_length_pos k; have := objs_le v e h.1.2; have := objsKVs_le r e h.2; omega
+termination_by sizeOf kvs
+
+theorem objsFields_le (vs : Vals) (fs : Fields) (h : wtFields fs vs = true) : objsFields fs vs ≤ (encFields fs vs).length := by
+  cases fs with
+  | nil => cases vs <;> simp [objsFields]
+  | cons n t fs' =>
+    cases vs with
+    | nil => simp [objsFields]
+    | cons v vs' =>
+      simp only [wtFields, Bool.and_eq_true] at h
+      simp only [encFields, objsFields, List.length_append]
+      have := encStr_length_pos n; have := objs_le v t h.1.2; have := objsFields_le vs' fs' h.2; omega
+termination_by sizeOf vs
+end
+
+/-- **`msgp.Skip` on an encoded value** returns exactly what follows it. -/
+theorem skip_enc_ok (v : Val) (t : Ty) (rest : Bytes) (h : wt t v = true) : skip (enc t v ++ rest) = some rest := by
+  unfold skip
+  have hb := objs_le v t h
+  have hf : (enc t v ++ rest).length + 1 = ((enc t v ++ rest).length + 1 - objs t v) + objs t v := by
+    simp only [List.length_append]; omega
+  rw [hf, show (1 : Nat) = 0 + 1 from rfl, skip_enc v t _ 0 rest h, skipN_zero]
+
+/-! ### the version peek of an entity wrapper -/
+
+theorem peekLoop_enc : (fs : Fields) → (vs : Vals) → (acc rest : Bytes) → wtFields fs vs = true → versionIsStr fs = true →
+    peekVersionLoop fs.length acc (encFields fs vs ++ rest) = some (versionOf fs vs acc)
+  | .nil, .nil, acc, rest, _, _ => by simp [Fields.length, peekVersionLoop, versionOf]
+  | .nil, .cons _ _, _, _, h, _ => by simp [wtFields] at h
+  | .cons _ _ _, .nil, _, _, h, _ => by simp [wtFields] at h
+  | .cons n t fs, .cons v vs, acc, rest, h, hv => by
+    simp only [wtFields, Bool.and_eq_true, decide_eq_true_eq] at h
+    simp only [versionIsStr, Bool.and_eq_true] at hv
+    simp only [Fields.length, encFields, peekVersionLoop, List.append_assoc]
+    rw [decStr_encStr n h.1.1]
+    simp only
+    by_cases hk : n = kVersion
+    · simp only [hk, if_true] at hv ⊢
+      cases t <;> simp at hv
+      cases v <;> simp [wt] at h
+      rename_i s
+      simp only [enc, versionOf, hk, if_true]
+      rw [decStr_encStr s h.1.2]
+      simp only
+      exact peekLoop_enc fs vs s rest h.2 hv
+    · simp only [hk, if_false]
+      rw [skip_enc_ok v t _ h.1.2]
+      simp only [versionOf, hk, if_false]
+      exact peekLoop_enc fs vs acc rest h.2 hv.2
+
+theorem peekVersion_enc (fs : Fields) (vs : Vals) (rest : Bytes) (h : wt (.struct fs) (.arr vs) = true)
+    (hv : versionIsStr fs = true) : peekVersion (enc (.struct fs) (.arr vs) ++ rest) = some (versionOf fs vs []) := by
+  simp only [wt, Bool.and_eq_true, decide_eq_true_eq] at h
+  simp only [enc, peekVersion, List.append_assoc]
+  rw [decMapHdr_enc _ h.1]
+  simp only
+  exact peekLoop_enc fs vs [] rest h.2 hv
+
+
+/-! ### entity wrappers -/
+
+
+theorem Fields.tyAt_of_get? : (fs : Fields) → (i : Nat) → (n : Bytes) → (t : Ty) → fs.get? i = some (n, t) → fs.tyAt i = some t
+  | .nil, _, _, _, h => by simp [Fields.get?] at h
+  | .cons n0 t0 r, 0, n, t, h => by
+    simp only [Fields.get?, Option.some.injEq, Prod.mk.injEq] at h
+    simp [Fields.tyAt, h.2]
+  | .cons n0 t0 r, j + 1, n, t, h => by
+    simp only [Fields.get?] at h
+    simp [Fields.tyAt, Fields.tyAt_of_get? r j n t h]
+
+/-- with distinct version strings, the version string selects its own alternative -/
+theorem decAlt_get : (alts : Fields) → alts.names.Nodup → (i : Nat) → (n : Bytes) → (t : Ty) → (bs : Bytes) →
+    alts.get? i = some (n, t) → decAlt alts n bs = (dec t bs).map fun (v, r) => (.alt i v, r)
+  | .nil, _, _, _, _, _, h => by simp [Fields.get?] at h
+  | .cons n0 t0 r, hn, 0, n, t, bs, h => by
+    simp only [Fields.get?, Option.some.injEq, Prod.mk.injEq] at h
+    obtain ⟨h1, h2⟩ := h
+    subst h1; subst h2
+    simp [decAlt]
+  | .cons n0 t0 r, hn, j + 1, n, t, bs, h => by
+    simp only [Fields.names, List.nodup_cons] at hn
+    simp only [Fields.get?] at h
+    have hm := Fields.get?_mem_names r j n t h
+    have hne : ¬ n0 = n := by
+      intro e; rw [e] at hn; exact hn.1 hm
+    simp only [decAlt, hne, if_false]
+    rw [decAlt_get r hn.2 j n t bs h]
+    cases dec t bs with
+    | none => rfl
+    | some p => rfl
 
 
 /-! ### decoding undoes encoding -/
@@ -519,7 +1000,28 @@ theorem dec_enc (v : Val) (t : Ty) (rest : Bytes) (h : wt t v = true) (hg : good
     rw [ptr_nonnil e _ rest (enc_head v' e h.1 hge h.2), dec_enc v' e rest h.1 hge]; rfl
   | alt i v' =>
     cases t <;> simp [wt] at h
-    simp [good] at hg
+    rename_i alts
+    cases hnm : alts.nameAt i with
+    | none => simp [hnm] at h
+    | some n =>
+      cases hty : alts.tyAt i with
+      | none => simp [hnm, hty] at h
+      | some t' =>
+        simp only [hnm, hty, Bool.and_eq_true] at h
+        obtain ⟨hw', hvo⟩ := h
+        have hg' : (Fields.names alts).Nodup ∧ goodAlts alts = true := by simpa [good] using hg
+        have hget : alts.get? i = some (n, t') := Fields.get?_of_at alts i n t' hnm hty
+        obtain ⟨fs, hfs, hvs, hgt⟩ := goodAlts_at alts i t' hg'.2 hty
+        subst hfs
+        cases v' <;> simp [versionOk] at hvo
+        rename_i vs
+        have e1 : enc (.union alts) (.alt i (.arr vs)) = enc (.struct fs) (.arr vs) := by simp [enc, hty]
+        rw [e1]
+        simp only [dec]
+        rw [peekVersion_enc fs vs rest hw' hvs]
+        simp only [hvo]
+        rw [decAlt_get alts hg'.1 i n (.struct fs) _ hget, dec_enc (.arr vs) (.struct fs) rest hw' hgt]
+        rfl
 termination_by sizeOf v
 
 theorem decList_enc (vs : Vals) (e : Ty) (rest : Bytes) (h : wtList e vs = true) (hg : good e = true) :
@@ -595,7 +1097,7 @@ theorem loop_enc (vs : Vals) (suf fsAll : Fields) (vsAll zs : Vals) (k : Nat) (r
       rw [Nat.add_zero] at h1
       rw [h1]
       simp only
-      rw [dec_enc v t _ hw.1 hg.1.2]
+      rw [dec_enc v t _ hw.1.2 hg.1.2]
       simp only
       have h2 := H2 0
       simp only [Nat.add_zero, Vals.get] at h2
@@ -756,6 +1258,7 @@ theorem migrate_eq (fromFs toFs : Fields) (copied : List Bytes) (ver : Bytes) (o
       (match toFs.index kVersion with
        | some i => (copied.foldl (migStep fromFs toFs old) (zeroFields toFs)).set i (.str ver)
        | none => copied.foldl (migStep fromFs toFs old) (zeroFields toFs)) := rfl
+
 
 
 end ZChain.Codec
